@@ -36,6 +36,10 @@ def impl_ops(kind, size, preset, ops):
     res = []
     for op in ops:
         try:
+            if op[0] == 2:
+                m.reset()
+                res.append([])
+                continue
             if op[0] == 0:
                 res.append([0, int(getattr(m, rd[op[1]])(op[2]))])
             else:
@@ -54,6 +58,10 @@ def ref_ops(kind, size, preset, ops):
     cells = dict(map(tuple, preset))
     res = []
     for op in ops:
+        if op[0] == 2:
+            cells = {}
+            res.append([])
+            continue
         k = op[1] // cw
         addrs = [(op[2] + i) % 2 ** 32 if kind == 0 else op[2] + i for i in range(k)]
         bad = next((a for a in addrs if not (lo <= a < hi)), None)
@@ -86,8 +94,16 @@ class FlatMem(Slice):
                 nb = rng.choice([8, 16, 32, 32, 64])
                 a = rng.choice(hot) + rng.randrange(-3, 9) if rng.random() < 0.8 else rng.choice(EDGE)
             else:
-                nb = 16
-                a = rng.choice(hot) + rng.randrange(-2, 3)
+                nb = rng.choice([16, 16, 16, 32, 64])          # 1, 2 or 4 cells of the TOY memory (no wrap-around)
+                a = rng.choice(hot) + rng.randrange(-4, 3)
+            if rng.random() < 0.04:
+                ops.append([2])                               # reset(): the memory is empty again
+                if ops[-2:-1] and rng.random() < 0.7:
+                    # ... and the next access repeats the last one (same address, same width)
+                    last = next((o for o in reversed(ops[:-1]) if o[0] in (0, 1)), None)
+                    if last:
+                        ops.append([0, last[1], last[2]])
+                continue
             if rng.random() < 0.5:
                 ops.append([0, nb, a])
             else:
@@ -104,10 +120,18 @@ class FlatMem(Slice):
     def run(self, case, model):
         kind, size, preset, ops = case["kind"], case["size"], case["preset"], case["ops"]
         # over-wide values are reduced by the fixedint constructor at the call site
-        ops_n = [op if op[0] == 0 else [1, op[1], op[2], op[3] % (1 << op[1])] for op in ops]
+        ops_n = [op if op[0] != 1 else [1, op[1], op[2], op[3] % (1 << op[1])] for op in ops]
         ires, imem = impl_ops(kind, size, preset, ops_n)
-        r = model.call([30, kind, size, preset, ops_n])
-        mres, mmem = r[0], r[1]
+        # the model has no reset operation: a reset starts a new history on an empty memory
+        mres, mmem, seg, pre = [], [], [], preset
+        for op in ops_n + [[2]]:
+            if op[0] == 2:
+                r = model.call([30, kind, size, pre, seg])
+                mres += list(r[0]) + [[]]
+                mmem, seg, pre = r[1], [], []
+            else:
+                seg.append(op)
+        mres = mres[:-1]
         findings = []
         if ires != mres or imem != mmem:
             k = next((j for j in range(len(ires)) if ires[j] != mres[j]), None)
@@ -119,7 +143,13 @@ class FlatMem(Slice):
         cl = {"rv" if kind == 0 else "toy"}
         written = set()
         for op, r_ in zip(ops_n, ires):
+            if op[0] == 2:
+                written = set()
+                cl.add("reset")
+                continue
             span = set(range(op[2], op[2] + op[1] // (8 if kind == 0 else 16)))
+            if kind == 1 and op[1] > 16:
+                cl.add("toy-multicell")
             if op[0] == 1 and r_ == []:
                 written |= span
             if op[0] == 0 and r_[0] == 0 and span & written:
@@ -136,7 +166,7 @@ class FlatMem(Slice):
         return "read-after-write" in classes
 
     def required_classes(self, tier):
-        return ["rv", "toy", "read-after-write", "range-error", "wrap", "unaligned"]
+        return ["rv", "toy", "read-after-write", "range-error", "wrap", "unaligned", "reset", "toy-multicell"]
 
     def shrink(self, case):
         ops = case["ops"]
